@@ -217,6 +217,30 @@ def run(ctx):
                 return False
         return True
     ctx.extra["borrowed_buffer_calls"] = H.borrowed_cases(ctx, bjudge, quick_subset=True)
+    # ---- a copy compares like its original against every third object: two waveforms laid over ONE buffer object at different offsets
+    # (from_array_1d / load_data with copy=False) are equal exactly when the samples they show are, and so are their copies
+    from nitypes.waveform import AnalogWaveform as _AW, ComplexWaveform as _CW, Spectrum as _SP
+    for cls_, dty_ in ((_AW, np.float64), (_AW, np.int32), (_CW, np.complex128), (_SP, np.float64)):
+        for pattern in ("periodic", "zeros", "ramp"):
+            buf = {"periodic": np.array([1, 2, 3] * 4, dty_), "zeros": np.zeros(12, dty_), "ramp": np.arange(12).astype(dty_)}[pattern]
+            for s1, s2, n_ in ((0, 3, 3), (0, 6, 3), (3, 9, 3), (0, 1, 3), (2, 2, 4), (0, 3, 0), (1, 4, 5)):
+                for route in ("factory", "load"):
+                    def mk(st):
+                        if route == "factory":
+                            return cls_.from_array_1d(buf, dty_, copy=False, start_index=st, sample_count=n_)
+                        w_ = cls_.from_array_1d(np.zeros(1, dty_), dty_)
+                        w_.load_data(buf, copy=False, start_index=st, sample_count=n_)
+                        return w_
+                    a_, b_ = mk(s1), mk(s2)
+                    want = buf[s1:s1 + n_].tolist() == buf[s2:s2 + n_].tolist()
+                    got = [outcome(lambda: a_ == b_), outcome(lambda: b_ == a_), outcome(lambda: not (a_ != b_))]
+                    cps = [outcome(lambda: dup(a_, how) == b_) for how in ("default", "deepcopy")]
+                    ctx.case(("same-buffer-windows", cls_.__name__, str(np.dtype(dty_)), pattern, s1, s2, n_, route))
+                    if any(g != ("ok", want) for g in got + cps):
+                        ctx.violation(what="equality of two waveforms over one buffer object (and of their copies) is not equality of what they show", type=cls_.__name__, dtype=str(np.dtype(dty_)),
+                                      buffer=pattern, windows=f"[{s1}:{s1 + n_}] and [{s2}:{s2 + n_}]", route=route,
+                                      observed=f"a==b {show(got[0])}, b==a {show(got[1])}, not(a!=b) {show(got[2])}, copy(a)==b {show(cps[0])} / {show(cps[1])}", required=str(want))
+                        break
     # ---- waveforms through histories (slack, borrowed buffers, names cache) -----------------------------------------------
     world = H.World(rng)
     w = {"appa": 3, "appw": 2, "load": 3, "setcount": 2, "setcap": 2, "settiming": 2, "write": 1, "get": 0, "pickle": 4, "bad": 0}
